@@ -32,4 +32,6 @@ PY
   rm -rf "$OUT/build"   # binaries and raw outputs: several GB per run; logs and replays stay
 done
 git -C /repo worktree remove --force "$WT"
-flock $VR/.check.lock sh -c "cd $VR/harness && VERIF_REPO=/repo sh gen_gomod.sh"; git -C $VR checkout -- lean/ElysModel/Gen 2>/dev/null
+# the generated Lean files were rewritten from the changed worktree: regenerate every one of them from /repo itself (not `git checkout`:
+# a generated file that is not committed yet would keep the changed tree's content)
+flock $VR/.check.lock sh -c "cd $VR/harness && VERIF_REPO=/repo sh gen_gomod.sh && VERIF_REPO=/repo sh $VR/lib/regen.sh >/dev/null 2>&1"
